@@ -125,6 +125,8 @@ def render_btoks(toks):
             x = "`" + t["n"]
         elif k == "inc":
             x = '`include "%s"' % t["n"]
+        elif k == "cmt":
+            x = t["n"]
         else:
             raise ValueError(k)
         if not prev_glue:
@@ -218,6 +220,8 @@ def render_file(items, blank=" "):
 
 def predef_entry(name, none=False, formals=None, body=None):
     """caller-supplied define: body is body-token list or None"""
+    if none:
+        formals, body = None, None
     fa = []
     for (fn, d) in (formals or []):
         fa.append({"n": fn, "d": [] if d is None else [{"src": render_btoks(d).strip(), "toks": d}]})
@@ -318,8 +322,10 @@ def observe_pp(res):
         runs = res.get("origins", [])
         tb = text.encode()
         toks = []
+        tokpos = []
         # tokenize works on str offsets; origins are byte offsets
         for (o, t, c) in tokenize(text):
+            tokpos.append(o)
             bo = len(text[:o].encode())
             f, off = origin_at(runs, bo)
             # contiguity of the token's bytes in the origin map
@@ -330,6 +336,28 @@ def observe_pp(res):
                     contig = False
                     break
             toks.append({"t": t, "f": f, "off": off, "c": c, "ct": contig})
+        # comments inside the text of a kept `define directive are not comments of the output (C18)
+        i = 0
+        while i + 1 < len(toks):
+            if toks[i]["t"] == "`" and toks[i + 1]["t"] == "define" and tokpos[i + 1] == tokpos[i] + 1:
+                end = tokpos[i]
+                while True:
+                    j = text.find("\n", end)
+                    if j < 0:
+                        end = len(text)
+                        break
+                    if j > 0 and text[j - 1] == "\\":
+                        end = j + 1
+                        continue
+                    end = j
+                    break
+                k = i
+                while k < len(toks) and tokpos[k] < end:
+                    toks[k]["c"] = False
+                    k += 1
+                i = k
+            else:
+                i += 1
         obs["toks"] = toks
         tk = tokenize(text)
         obs["blanks"] = blank_pieces(text, runs, toks_pos=[len(text[:o].encode()) for (o, t, c) in tk],
